@@ -46,6 +46,14 @@ Theorem C12_rpc_batch_exact : forall s ec a tc seqs, length a = 32%nat -> 0 <= e
     forall q b, In (q, b) l <-> In q seqs /\ get_signed_vaa_bytes s {| i_ec := ec; i_ea := a; i_tc := tc; i_seq := q |} = Found b.
 Proof. exact rpc_batch_exact. Qed.
 
+(* ... over a history: the requested sequences stored in that stream, in request order, with the bytes last stored *)
+Theorem C12_rpc_batch_history : forall vs ec a tc seqs, Forall wf vs -> length a = 32%nat -> 0 <= ec < 65536 -> 0 <= tc < 65536 ->
+  Forall (fun q => 0 <= q) seqs -> Z.of_nat (length seqs) <= rpc_max_batch ->
+  rpc_nongov_batch (store_all [] vs) ec (hex a) tc seqs =
+  ROk (flat_map (fun q => match last_stored vs {| i_ec := ec; i_ea := a; i_tc := tc; i_seq := q |} with
+                          | Some v => [(q, marshal v)] | None => [] end) seqs).
+Proof. exact rpc_batch_history. Qed.
+
 (* ---------------------------------------------------------------- prefixes select exactly one emitter / one stream *)
 Theorem C12_gov_prefix_iff : forall c a i, 0 <= c -> length a = 32%nat -> idwf i ->
   (prefix_of (gov_prefix c a) (key i) = true <-> i_ec i = c /\ i_ea i = a).
@@ -145,6 +153,7 @@ Print Assumptions C12_lookup_exact.
 Print Assumptions C12_store_changes_only_its_id.
 Print Assumptions C12_rpc_lookup_exact.
 Print Assumptions C12_rpc_batch_exact.
+Print Assumptions C12_rpc_batch_history.
 Print Assumptions C12_gov_prefix_iff.
 Print Assumptions C12_gap_prefix_iff.
 Print Assumptions C12_scan_is_prefix_filter.
